@@ -1,5 +1,5 @@
 (* C20 -- String generator honours length bounds and pattern, or refuses. *)
-From Fences Require Import Regex.
+From Fences Require Import Regex GraphSpec GraphLinks GraphExec GraphRun GraphOpt RegexLang.
 
 (* whatever the pattern, the graph and the fuel: a returned string has a length inside the requested
    bounds (for all min_length, all max_length >= min_length or absent) *)
@@ -35,6 +35,37 @@ Proof.
   - discriminate.
 Qed.
 Print Assumptions C20_contract.
+
+(* when a pattern is given, the returned string ends with a string the pattern matches in full, i.e. it
+   contains a match (the padding of 'x' characters comes in front) *)
+Lemma first_valid_lang fuel r st root : parse_regex fuel r = Ok (st, root) ->
+  forall es result, first_valid fuel st root es = Ok (Some result) -> matches r result.
+Proof.
+  intros H. induction es as [|e es IH]; intros result F; cbn [first_valid] in F; [discriminate|].
+  destruct (evalid e); [|auto].
+  destruct (execute fuel (b_graph st) root (epath e)) as [tr| | |] eqn:X; cbn [bind] in F; try discriminate.
+  inversion F; subst result. unfold execute in X.
+  destruct (exec fuel (b_graph st) root (epath e)) as [[tr' rest]| | |] eqn:E; cbn [bind] in X; try discriminate.
+  destruct rest; [|discriminate]. inversion X; subst tr'.
+  apply exec_Run in E. apply Run_Run0 in E. destruct E as (c & _ & R).
+  exact (parse_regex_lang fuel r st root H c tr R).
+Qed.
+
+Theorem C20_contains_match : forall V fuel mn mx r s,
+  gen_random_string V fuel mn mx (Some r) = Ok s ->
+  exists pad w, s = pad ++ w /\ matches r w.
+Proof.
+  intros V fuel mn mx r s H. unfold gen_random_string in H.
+  destruct (match mx with Some m => m <? mn | None => false end); [discriminate|].
+  destruct (parse_regex fuel r) as [[st root]| | |] eqn:P; cbn [bind] in H; try discriminate.
+  destruct (generate_paths V fuel (b_graph st) root aempty aempty) as [[a [es status]]| | |]; cbn [bind] in H; try discriminate.
+  destruct (first_valid fuel st root es) as [[result|]| | |] eqn:F; cbn [bind] in H; try discriminate.
+  - destruct (match mx with Some m => m <? length result | None => false end); [discriminate|].
+    inversion H; subst. exists (repeat xchar (mn - length result)), result. split; auto.
+    eapply first_valid_lang; eauto.
+  - destruct status; discriminate.
+Qed.
+Print Assumptions C20_contains_match.
 
 Example C20_nonvacuous :
   gen_random_string V_fixed 200 5 (Some 6) (Some (RAlt1 (SCons (IChar 97 None) (SOne (IChar 98 (Some QPlus))))))
